@@ -204,7 +204,7 @@ Lemma lstep_sim p sc n c c5 x c' :
 Proof.
   destruct c as [s stk], c5 as [ss sstk]. intros [HR HF]. cbn [fst snd] in HR, HF.
   assert (HE := R_ents _ _ HR). assert (HD := R_dead _ _ HR).
-  destruct x as [a|r x|k i e w| |]; cbn [lstep].
+  destruct x as [a|r x|k i e w| |q|]; cbn [lstep].
   - (* LAct *)
     destruct stk as [|[ms|[|a' rest]] stk']; try discriminate.
     inversion HF as [|f f5 l l5 F1 F2]; subst. apply frel_FCb in F1. destruct F1 as [r5 ->].
@@ -256,6 +256,12 @@ Proof.
     destruct (run_sim _ _ _ _ _ _ HR RM) as (ss2 & RM5 & HR2).
     cbn [lstep5]. rewrite RM5. eexists. split; [reflexivity|]. split; [exact HR2|]. cbn [snd].
     constructor; [reflexivity|exact G2].
+  - (* LQ *)
+    destruct stk as [|[|rest] stk']; try discriminate.
+    inversion HF as [|f f5 l l5 F1 F2]; subst. apply frel_FCb in F1. destruct F1 as [r5 ->].
+    destruct (qcheck s q) eqn:Q; [|discriminate]. intros [= <-].
+    cbn [lstep5]. rewrite (qcheck_sim _ _ _ HR Q). eexists. split; [reflexivity|].
+    split; [exact HR|]. cbn [snd]. constructor; [exact I|exact F2].
   - (* LProc *)
     destruct stk as [|[[|m ms]|] stk']; try discriminate.
     destruct m; try discriminate.
